@@ -6,26 +6,27 @@
 import CV.Proofs.GenStructSem
 set_option linter.unusedSimpArgs false
 set_option linter.unusedVariables false
+set_option linter.constructorNameAsVariable false
 namespace CV.GenStruct
-open CV CV.GenFlat
+open CV CV.GenFlat CV.GenReg
 
 /-- the run of a piece of code: from `start` to `stop` with final memory `m'` and flag belief `fl` -/
-def Result (L : Layout) (code : List GLine) (start : Nat) (s : Cpu) (stop : Nat) (m' : Mem) (fl : Option String) : Prop :=
-  ∃ s', Steps L code start s stop s' ∧ s'.mem = m' ∧ FlagsInv L fl s' ∧ s'.x = s.x ∧ s'.y = s.y ∧ s'.sp = s.sp
+def Result (L : Layout) (code : List GLine) (start : Nat) (s : Cpu) (stop : Nat) (m' : SrcSt) (fl : Option FRef) : Prop :=
+  ∃ s', Steps L code start s stop s' ∧ srcOf s' = m' ∧ FlagsInv L fl s' ∧ s'.sp = s.sp
 
 /-- correctness of `gen` for every statement whose source meaning is found within `fuel` -/
 def Correct (L : Layout) (fuel : Nat) : Prop :=
-  ∀ (st : SStmt) (m m' : Mem), sem L fuel m st = some m' → SInFragment st = true →
-    ∀ (g : GState) (pre post : List GLine) (s : Cpu), Old g pre → s.mem = m → FlagsInv L g.flags s →
+  ∀ (st : SStmt) (m m' : SrcSt), sem L fuel m st = some m' → SInFragment st = true →
+    ∀ (g : GState) (pre post : List GLine) (s : Cpu), Old g pre → srcOf s = m → FlagsInv L g.flags s →
       Result L (pre ++ (gen g st).1 ++ post) pre.length s (pre.length + (gen g st).1.length) m' (gen g st).2.flags
 
-theorem Result.trans {L : Layout} {code : List GLine} {p1 p2 p3 : Nat} {s1 : Cpu} {m2 m3 : Mem} {f2 f3 : Option String}
+theorem Result.trans {L : Layout} {code : List GLine} {p1 p2 p3 : Nat} {s1 : Cpu} {m2 m3 : SrcSt} {f2 f3 : Option FRef}
     (h1 : Result L code p1 s1 p2 m2 f2)
-    (h2 : ∀ s2 : Cpu, s2.mem = m2 → FlagsInv L f2 s2 → Result L code p2 s2 p3 m3 f3) :
+    (h2 : ∀ s2 : Cpu, srcOf s2 = m2 → FlagsInv L f2 s2 → Result L code p2 s2 p3 m3 f3) :
     Result L code p1 s1 p3 m3 f3 := by
-  obtain ⟨s2, hs, hm, hf, hx, hy, hsp⟩ := h1
-  obtain ⟨s3, hs', hm', hf', hx', hy', hsp'⟩ := h2 s2 hm hf
-  exact ⟨s3, hs.trans hs', hm', hf', by rw [hx', hx], by rw [hy', hy], by rw [hsp', hsp]⟩
+  obtain ⟨s2, hs, hm, hf, hsp⟩ := h1
+  obtain ⟨s3, hs', hm', hf', hsp'⟩ := h2 s2 hm hf
+  exact ⟨s3, hs.trans hs', hm', hf', by rw [hsp', hsp]⟩
 
 /-- a label that is new for `g` is not defined in code that is old for `g` -/
 theorem not_mem_of_new {g : GState} {pre : List GLine} {l : Lbl} (ho : Old g pre) (hn : g.ctr l.kind.ctr < l.idx) :
@@ -34,18 +35,18 @@ theorem not_mem_of_new {g : GState} {pre : List GLine} {l : Lbl} (ho : Old g pre
   have := ho l h
   omega
 
-theorem case_flat (L : Layout) (f : Nat) (fs : FStmt) (m m' : Mem) (h : sem L (f + 1) m (.flat fs) = some m')
-    (g : GState) (pre post : List GLine) (s : Cpu) (hm : s.mem = m) :
+theorem case_flat (L : Layout) (f : Nat) (fs : RStmt) (m m' : SrcSt) (h : sem L (f + 1) m (.flat fs) = some m')
+    (g : GState) (pre post : List GLine) (s : Cpu) (hm : srcOf s = m) (hinv : FlagsInv L g.flags s) :
     Result L (pre ++ (gen g (.flat fs)).1 ++ post) pre.length s (pre.length + (gen g (.flat fs)).1.length) m'
       (gen g (.flat fs)).2.flags := by
   simp only [sem, Option.some.injEq] at h
-  obtain ⟨s', hs, hmem, hx, hy, hsp, hz⟩ := flat_steps L fs pre post s
-  refine ⟨s', by simpa [gen, genFlat] using hs, ?_, by simpa [gen, genFlat] using hz, hx, hy, hsp⟩
+  obtain ⟨s', hs, hmem, hsp, hz⟩ := flat_steps L fs g.flags pre post s hinv
+  refine ⟨s', by simpa [gen, genFlat] using hs, ?_, by simpa [gen, genFlat] using hz, hsp⟩
   rw [hmem, hm, h]
 
-theorem case_seq (L : Layout) (f : Nat) (ih : Correct L f) (a b : SStmt) (m m' : Mem)
+theorem case_seq (L : Layout) (f : Nat) (ih : Correct L f) (a b : SStmt) (m m' : SrcSt)
     (h : sem L (f + 1) m (.seq a b) = some m') (hfr : SInFragment (.seq a b) = true)
-    (g : GState) (pre post : List GLine) (s : Cpu) (hold : Old g pre) (hm : s.mem = m) (hinv : FlagsInv L g.flags s) :
+    (g : GState) (pre post : List GLine) (s : Cpu) (hold : Old g pre) (hm : srcOf s = m) (hinv : FlagsInv L g.flags s) :
     Result L (pre ++ (gen g (.seq a b)).1 ++ post) pre.length s (pre.length + (gen g (.seq a b)).1.length) m'
       (gen g (.seq a b)).2.flags := by
   simp only [sem] at h
@@ -83,9 +84,9 @@ theorem not_mem_of_fresh {gx : GState} {r : List GLine × GState} {l : Lbl} (hf 
 
 theorem fresh_ctr_le {g : GState} {r : List GLine × GState} (h : Fresh g r) (c : Ctr) : g.ctr c ≤ r.2.ctr c := h.1 c
 
-theorem case_ifThen (L : Layout) (f : Nat) (ih : Correct L f) (c : Cond) (t : SStmt) (m m' : Mem)
+theorem case_ifThen (L : Layout) (f : Nat) (ih : Correct L f) (c : Cond) (t : SStmt) (m m' : SrcSt)
     (h : sem L (f + 1) m (.ifThen c t) = some m') (hfr : SInFragment (.ifThen c t) = true)
-    (g : GState) (pre post : List GLine) (s : Cpu) (hold : Old g pre) (hm : s.mem = m) (hinv : FlagsInv L g.flags s) :
+    (g : GState) (pre post : List GLine) (s : Cpu) (hold : Old g pre) (hm : srcOf s = m) (hinv : FlagsInv L g.flags s) :
     Result L (pre ++ (gen g (.ifThen c t)).1 ++ post) pre.length s (pre.length + (gen g (.ifThen c t)).1.length) m'
       (gen g (.ifThen c t)).2.flags := by
   simp only [sem] at h
@@ -126,7 +127,7 @@ theorem case_ifThen (L : Layout) (f : Nat) (ih : Correct L f) (c : Cond) (t : SS
   rw [hcc] at hc
   have hc' := hc pre (ct ++ [GLine.lab ⟨.ifend, g.cIf + 1⟩] ++ post) s (pre.length + cc.length + ct.length) hold0 hinv
     (by simpa [List.append_assoc] using hfind)
-  obtain ⟨s1, hs1, hm1, hx1, hy1, hsp1, hf1⟩ := hc'
+  obtain ⟨s1, hs1, hm1, hsp1, hf1⟩ := hc'
   have e1 : pre ++ cc ++ (ct ++ [GLine.lab ⟨.ifend, g.cIf + 1⟩] ++ post)
       = pre ++ (cc ++ ct ++ [GLine.lab ⟨.ifend, g.cIf + 1⟩]) ++ post := by simp
   dsimp only at hs1 hf1
@@ -143,8 +144,8 @@ theorem case_ifThen (L : Layout) (f : Nat) (ih : Correct L f) (c : Cond) (t : SS
     have e2 : pre ++ cc ++ ct ++ ([GLine.lab ⟨.ifend, g.cIf + 1⟩] ++ post)
         = pre ++ (cc ++ ct ++ [GLine.lab ⟨.ifend, g.cIf + 1⟩]) ++ post := by simp
     rw [e2] at rt
-    obtain ⟨s2, hs2, hm2, hf2, hx2, hy2, hsp2⟩ := rt
-    refine ⟨s2, ?_, hm2, trivial, by rw [hx2, hx1], by rw [hy2, hy1], by rw [hsp2, hsp1]⟩
+    obtain ⟨s2, hs2, hm2, hf2, hsp2⟩ := rt
+    refine ⟨s2, ?_, hm2, trivial, by rw [hsp2, hsp1]⟩
     have hs2' : Steps L (pre ++ (cc ++ ct ++ [GLine.lab ⟨.ifend, g.cIf + 1⟩]) ++ post) (pre.length + cc.length) s1
         (pre.length + cc.length + ct.length) s2 := by simpa using hs2
     exact (hs1.trans hs2').trans (hlab s2)
@@ -153,12 +154,12 @@ theorem case_ifThen (L : Layout) (f : Nat) (ih : Correct L f) (c : Cond) (t : SS
     simp only [hev', Bool.false_eq_true, if_false, Option.some.injEq] at h
     have hb : (evalCond L m c != true) = true := by simp [hev']
     simp only [hb, if_true] at hs1
-    refine ⟨s1, hs1.trans (hlab s1), by rw [hm1, hm, h], trivial, hx1, hy1, hsp1⟩
+    refine ⟨s1, hs1.trans (hlab s1), by rw [hm1, hm, h], trivial, hsp1⟩
 
 
-theorem case_ifElse (L : Layout) (f : Nat) (ih : Correct L f) (c : Cond) (t e : SStmt) (m m' : Mem)
+theorem case_ifElse (L : Layout) (f : Nat) (ih : Correct L f) (c : Cond) (t e : SStmt) (m m' : SrcSt)
     (h : sem L (f + 1) m (.ifElse c t e) = some m') (hfr : SInFragment (.ifElse c t e) = true)
-    (g : GState) (pre post : List GLine) (s : Cpu) (hold : Old g pre) (hm : s.mem = m) (hinv : FlagsInv L g.flags s) :
+    (g : GState) (pre post : List GLine) (s : Cpu) (hold : Old g pre) (hm : srcOf s = m) (hinv : FlagsInv L g.flags s) :
     Result L (pre ++ (gen g (.ifElse c t e)).1 ++ post) pre.length s (pre.length + (gen g (.ifElse c t e)).1.length) m'
       (gen g (.ifElse c t e)).2.flags := by
   simp only [sem] at h
@@ -232,7 +233,7 @@ theorem case_ifElse (L : Layout) (f : Nat) (ih : Correct L f) (c : Cond) (t e : 
   rw [hcc] at hc
   have hc' := hc pre (ct ++ [GLine.jmp ifend, .lab els] ++ ce ++ [.lab ifend] ++ post) s
     (pre.length + cc.length + ct.length + 1) hold0 hinv (by rw [← w3]; exact hfind_els)
-  obtain ⟨s1, hs1, hm1, hx1, hy1, hsp1, hf1⟩ := hc'
+  obtain ⟨s1, hs1, hm1, hsp1, hf1⟩ := hc'
   dsimp only at hs1 hf1
   rw [← w3, hm] at hs1
   rw [hm] at hf1
@@ -245,7 +246,7 @@ theorem case_ifElse (L : Layout) (f : Nat) (ih : Correct L f) (c : Cond) (t e : 
     rw [hct] at rt
     dsimp only at rt
     rw [← w4] at rt
-    obtain ⟨s2, hs2, hm2, hf2, hx2, hy2, hsp2⟩ := rt
+    obtain ⟨s2, hs2, hm2, hf2, hsp2⟩ := rt
     have hs2' : Steps L whole (pre.length + cc.length) s1 (pre.length + cc.length + ct.length) s2 :=
       hs2.cast (by len_arith) (by len_arith)
     have hj : Steps L whole (pre.length + cc.length + ct.length) s2 (pre.length + cc.length + ct.length + 2 + ce.length) s2 := by
@@ -253,7 +254,7 @@ theorem case_ifElse (L : Layout) (f : Nat) (ih : Correct L f) (c : Cond) (t e : 
         (pre.length + cc.length + ct.length + 2 + ce.length) (by rw [← w5]; exact hfind_ifend))
       rw [← w5] at this
       exact this.cast (by len_arith) rfl
-    refine ⟨s2, ((hs1.trans hs2').trans hj).trans (hlab s2), hm2, trivial, by rw [hx2, hx1], by rw [hy2, hy1], by rw [hsp2, hsp1]⟩
+    refine ⟨s2, ((hs1.trans hs2').trans hj).trans (hlab s2), hm2, trivial, by rw [hsp2, hsp1]⟩
   · have hev' : evalCond L m c = false := by simpa using hev
     simp only [hev', Bool.false_eq_true, if_false] at h
     have hb : (evalCond L m c != true) = true := by simp [hev']
@@ -278,21 +279,21 @@ theorem case_ifElse (L : Layout) (f : Nat) (ih : Correct L f) (c : Cond) (t e : 
     rw [hce] at re
     dsimp only at re
     rw [← w6] at re
-    obtain ⟨s2, hs2, hm2, hf2, hx2, hy2, hsp2⟩ := re
+    obtain ⟨s2, hs2, hm2, hf2, hsp2⟩ := re
     have hs2' : Steps L whole (pre.length + cc.length + ct.length + 2) s1 (pre.length + cc.length + ct.length + 2 + ce.length) s2 :=
       hs2.cast (by len_arith) (by len_arith)
-    refine ⟨s2, ((hs1.trans hl).trans hs2').trans (hlab s2), hm2, trivial, by rw [hx2, hx1], by rw [hy2, hy1], by rw [hsp2, hsp1]⟩
+    refine ⟨s2, ((hs1.trans hl).trans hs2').trans (hlab s2), hm2, trivial, by rw [hsp2, hsp1]⟩
 
 
-theorem gen_while_flags (g : GState) (x : Option String) (c : Cond) (b : SStmt) :
+theorem gen_while_flags (g : GState) (x : Option FRef) (c : Cond) (b : SStmt) :
     gen { g with flags := x } (.while c b) = gen g (.while c b) := rfl
 
-theorem gen_doWhile_flags (g : GState) (x : Option String) (c : Cond) (b : SStmt) :
+theorem gen_doWhile_flags (g : GState) (x : Option FRef) (c : Cond) (b : SStmt) :
     gen { g with flags := x } (.doWhile b c) = gen g (.doWhile b c) := rfl
 
-theorem case_while (L : Layout) (f : Nat) (ih : Correct L f) (c : Cond) (b : SStmt) (m m' : Mem)
+theorem case_while (L : Layout) (f : Nat) (ih : Correct L f) (c : Cond) (b : SStmt) (m m' : SrcSt)
     (h : sem L (f + 1) m (.while c b) = some m') (hfr : SInFragment (.while c b) = true)
-    (g : GState) (pre post : List GLine) (s : Cpu) (hold : Old g pre) (hm : s.mem = m) (hinv : FlagsInv L g.flags s) :
+    (g : GState) (pre post : List GLine) (s : Cpu) (hold : Old g pre) (hm : srcOf s = m) (hinv : FlagsInv L g.flags s) :
     Result L (pre ++ (gen g (.while c b)).1 ++ post) pre.length s (pre.length + (gen g (.while c b)).1.length) m'
       (gen g (.while c b)).2.flags := by
   have hfr0 := hfr
@@ -300,7 +301,7 @@ theorem case_while (L : Layout) (f : Nat) (ih : Correct L f) (c : Cond) (b : SSt
   simp only [SInFragment, Bool.and_eq_true] at hfr
   obtain ⟨hokc, hfrb⟩ := hfr
   -- the recursive use is about the very same code
-  have hrec := fun (m1 : Mem) (hs : sem L f m1 (.while c b) = some m') (s2 : Cpu) (hm2 : s2.mem = m1) =>
+  have hrec := fun (m1 : SrcSt) (hs : sem L f m1 (.while c b) = some m') (s2 : Cpu) (hm2 : srcOf s2 = m1) =>
     ih (.while c b) m1 m' hs hfr0 { g with flags := none } pre post s2 ((old_flags g none pre).mpr hold) hm2 trivial
   simp only [gen_while_flags] at hrec
   revert hrec
@@ -361,7 +362,7 @@ theorem case_while (L : Layout) (f : Nat) (ih : Correct L f) (c : Cond) (b : SSt
   rw [hcc] at hc
   have hc' := hc (pre ++ [GLine.lab wl]) (cb ++ [GLine.jmp wl, .lab we] ++ post) s
     (pre.length + 1 + cc.length + cb.length + 1) hold0 trivial (by rw [← w2]; exact hfind_we)
-  obtain ⟨s1, hs1, hm1, hx1, hy1, hsp1, hf1⟩ := hc'
+  obtain ⟨s1, hs1, hm1, hsp1, hf1⟩ := hc'
   dsimp only at hs1 hf1
   rw [← w2, hm] at hs1
   rw [hm] at hf1
@@ -378,14 +379,14 @@ theorem case_while (L : Layout) (f : Nat) (ih : Correct L f) (c : Cond) (b : SSt
       rw [hcb] at rb
       dsimp only at rb
       rw [← w3] at rb
-      obtain ⟨s2, hs2, hm2, hf2, hx2, hy2, hsp2⟩ := rb
+      obtain ⟨s2, hs2, hm2, hf2, hsp2⟩ := rb
       have hj : Steps L whole (pre.length + 1 + cc.length + cb.length) s2 pre.length s2 := by
         have := Steps.single (step_jmp L (pre ++ [GLine.lab wl] ++ cc ++ cb) ([GLine.lab we] ++ post) wl s2 pre.length
           (by rw [← w4]; exact hfind_wl))
         rw [← w4] at this
         exact this.cast (by len_arith) rfl
-      obtain ⟨s3, hs3, hm3, hf3, hx3, hy3, hsp3⟩ := hrec m1 h s2 hm2
-      refine ⟨s3, ?_, hm3, trivial, by rw [hx3, hx2, hx1], by rw [hy3, hy2, hy1], by rw [hsp3, hsp2, hsp1]⟩
+      obtain ⟨s3, hs3, hm3, hf3, hsp3⟩ := hrec m1 h s2 hm2
+      refine ⟨s3, ?_, hm3, trivial, by rw [hsp3, hsp2, hsp1]⟩
       have hs1' : Steps L whole (pre.length + 1) s (pre.length + 1 + cc.length) s1 := hs1.cast (by len_arith) (by len_arith)
       have hs2' : Steps L whole (pre.length + 1 + cc.length) s1 (pre.length + 1 + cc.length + cb.length) s2 :=
         hs2.cast (by len_arith) (by len_arith)
@@ -399,19 +400,19 @@ theorem case_while (L : Layout) (f : Nat) (ih : Correct L f) (c : Cond) (b : SSt
       rw [← w1] at this
       exact this.cast (by len_arith) (by len_arith)
     have hs1' : Steps L whole (pre.length + 1) s (pre.length + 1 + cc.length + cb.length + 1) s1 := hs1.cast (by len_arith) rfl
-    exact ⟨s1, (h0.trans hs1').trans hl, by rw [hm1, hm, h], trivial, hx1, hy1, hsp1⟩
+    exact ⟨s1, (h0.trans hs1').trans hl, by rw [hm1, hm, h], trivial, hsp1⟩
 
 
-theorem case_doWhile (L : Layout) (f : Nat) (ih : Correct L f) (c : Cond) (b : SStmt) (m m' : Mem)
+theorem case_doWhile (L : Layout) (f : Nat) (ih : Correct L f) (c : Cond) (b : SStmt) (m m' : SrcSt)
     (h : sem L (f + 1) m (.doWhile b c) = some m') (hfr : SInFragment (.doWhile b c) = true)
-    (g : GState) (pre post : List GLine) (s : Cpu) (hold : Old g pre) (hm : s.mem = m) (hinv : FlagsInv L g.flags s) :
+    (g : GState) (pre post : List GLine) (s : Cpu) (hold : Old g pre) (hm : srcOf s = m) (hinv : FlagsInv L g.flags s) :
     Result L (pre ++ (gen g (.doWhile b c)).1 ++ post) pre.length s (pre.length + (gen g (.doWhile b c)).1.length) m'
       (gen g (.doWhile b c)).2.flags := by
   have hfr0 := hfr
   simp only [sem] at h
   simp only [SInFragment, Bool.and_eq_true] at hfr
   obtain ⟨hokc, hfrb⟩ := hfr
-  have hrec := fun (m1 : Mem) (hs : sem L f m1 (.doWhile b c) = some m') (s2 : Cpu) (hm2 : s2.mem = m1) =>
+  have hrec := fun (m1 : SrcSt) (hs : sem L f m1 (.doWhile b c) = some m') (s2 : Cpu) (hm2 : srcOf s2 = m1) =>
     ih (.doWhile b c) m1 m' hs hfr0 { g with flags := none } pre post s2 ((old_flags g none pre).mpr hold) hm2 trivial
   simp only [gen_doWhile_flags] at hrec
   revert hrec
@@ -461,7 +462,7 @@ theorem case_doWhile (L : Layout) (f : Nat) (ih : Correct L f) (c : Cond) (b : S
     rw [hcb] at rb
     dsimp only at rb
     rw [← w2] at rb
-    obtain ⟨s1, hs1, hm1, hf1, hx1, hy1, hsp1⟩ := rb
+    obtain ⟨s1, hs1, hm1, hf1, hsp1⟩ := rb
     have hs1' : Steps L whole (pre.length + 1) s (pre.length + 1 + cb.length) s1 := hs1.cast (by len_arith) (by len_arith)
     -- the condition
     have hc := genCond_correct L c g1 false dl hokc
@@ -469,15 +470,15 @@ theorem case_doWhile (L : Layout) (f : Nat) (ih : Correct L f) (c : Cond) (b : S
     rw [hcc] at hc
     have hc' := hc (pre ++ [GLine.lab dl] ++ cb) ([GLine.lab de] ++ post) s1 pre.length hold1 hf1
       (by rw [← w3]; exact hfind_dl)
-    obtain ⟨s2, hs2, hm2, hx2, hy2, hsp2, hf2⟩ := hc'
+    obtain ⟨s2, hs2, hm2, hsp2, hf2⟩ := hc'
     dsimp only at hs2 hf2
     rw [← w3, hm1] at hs2
     by_cases hev : evalCond L m1 c = true
     · simp only [hev, if_true] at h
       have hb : (evalCond L m1 c != false) = true := by simp [hev]
       simp only [hb, if_true] at hs2
-      obtain ⟨s3, hs3, hm3, hf3, hx3, hy3, hsp3⟩ := hrec m1 h s2 (by rw [hm2, hm1])
-      refine ⟨s3, ?_, hm3, trivial, by rw [hx3, hx2, hx1], by rw [hy3, hy2, hy1], by rw [hsp3, hsp2, hsp1]⟩
+      obtain ⟨s3, hs3, hm3, hf3, hsp3⟩ := hrec m1 h s2 (by rw [hm2, hm1])
+      refine ⟨s3, ?_, hm3, trivial, by rw [hsp3, hsp2, hsp1]⟩
       have hs2' : Steps L whole (pre.length + 1 + cb.length) s1 pre.length s2 := hs2.cast (by len_arith) rfl
       exact ((h0.trans hs1').trans hs2').trans hs3
     · have hev' : evalCond L m1 c = false := by simpa using hev
@@ -490,7 +491,7 @@ theorem case_doWhile (L : Layout) (f : Nat) (ih : Correct L f) (c : Cond) (b : S
         exact this.cast (by len_arith) (by len_arith)
       have hs2' : Steps L whole (pre.length + 1 + cb.length) s1 (pre.length + 1 + cb.length + cc.length) s2 :=
         hs2.cast (by len_arith) (by len_arith)
-      exact ⟨s2, ((h0.trans hs1').trans hs2').trans hl, by rw [hm2, hm1, h], trivial, by rw [hx2, hx1], by rw [hy2, hy1],
+      exact ⟨s2, ((h0.trans hs1').trans hs2').trans hl, by rw [hm2, hm1, h], trivial,
         by rw [hsp2, hsp1]⟩
 
 
@@ -499,18 +500,18 @@ theorem old_nolabels {g : GState} {p q : List GLine} (hp : Old g p) (hq : labels
   simp [hq] at hl
   exact hp l hl
 
-theorem case_for (L : Layout) (f : Nat) (ihs : ∀ j, j ≤ f → Correct L j) (i u : FStmt) (c : Cond) (b : SStmt) (m m' : Mem)
+theorem case_for (L : Layout) (f : Nat) (ihs : ∀ j, j ≤ f → Correct L j) (i u : RStmt) (c : Cond) (b : SStmt) (m m' : SrcSt)
     (h : sem L (f + 1) m (.for i c u b) = some m') (hfr : SInFragment (.for i c u b) = true)
-    (g : GState) (pre post : List GLine) (s : Cpu) (hold : Old g pre) (hm : s.mem = m) (hinv : FlagsInv L g.flags s) :
+    (g : GState) (pre post : List GLine) (s : Cpu) (hold : Old g pre) (hm : srcOf s = m) (hinv : FlagsInv L g.flags s) :
     Result L (pre ++ (gen g (.for i c u b)).1 ++ post) pre.length s (pre.length + (gen g (.for i c u b)).1.length) m'
       (gen g (.for i c u b)).2.flags := by
   simp only [sem] at h
   simp only [SInFragment, Bool.and_eq_true] at hfr
   obtain ⟨⟨⟨_, hokc⟩, _⟩, hfrb⟩ := hfr
   simp only [gen, genFlat]
-  rcases hc1 : genCond { g with cFor := g.cFor + 1, flags := some (target i) } c true ⟨.forend, g.cFor + 1⟩ with ⟨c1, g2⟩
+  rcases hc1 : genCond { g with cFor := g.cFor + 1, flags := flagsAfter g.flags i } c true ⟨.forend, g.cFor + 1⟩ with ⟨c1, g2⟩
   rcases hcb : gen { g2 with flags := none } b with ⟨cb, g3⟩
-  rcases hc2 : genCond { g3 with flags := some (target u) } c false ⟨.for_, g.cFor + 1⟩ with ⟨c2, g5⟩
+  rcases hc2 : genCond { g3 with flags := flagsAfter none u } c false ⟨.for_, g.cFor + 1⟩ with ⟨c2, g5⟩
   dsimp only
   generalize hfl : (⟨.for_, g.cFor + 1⟩ : Lbl) = fl
   generalize hfu : (⟨.forupdate, g.cFor + 1⟩ : Lbl) = fu
@@ -519,20 +520,20 @@ theorem case_for (L : Layout) (f : Nat) (ihs : ∀ j, j ≤ f → Correct L j) (
   generalize hcu : flatLines u = cu
   have hlci : labels ci = [] := by rw [← hci]; exact labels_flatLines i
   have hlcu : labels cu = [] := by rw [← hcu]; exact labels_flatLines u
-  have hf1 : Fresh { g with cFor := g.cFor + 1, flags := some (target i) } (c1, g2) := hc1 ▸ genCond_fresh ..
+  have hf1 : Fresh { g with cFor := g.cFor + 1, flags := flagsAfter g.flags i } (c1, g2) := hc1 ▸ genCond_fresh ..
   have hfb : Fresh g2 (cb, g3) := by
     have := gen_fresh b { g2 with flags := none }
     rw [hcb, fresh_flags_left] at this
     exact this
   have hf2 : Fresh g3 (c2, g5) := by
-    have : Fresh { g3 with flags := some (target u) } (c2, g5) := hc2 ▸ genCond_fresh ..
+    have : Fresh { g3 with flags := flagsAfter none u } (c2, g5) := hc2 ▸ genCond_fresh ..
     rwa [fresh_flags_left] at this
   have hk1 := fresh_ctr_le hf1 .cFor
   have hk2 := fresh_ctr_le hfb .cFor
   simp [GState.ctr] at hk1 hk2
-  have hm0 : Mono g { g with cFor := g.cFor + 1, flags := some (target i) } := by
+  have hm0 : Mono g { g with cFor := g.cFor + 1, flags := flagsAfter g.flags i } := by
     intro k; cases k <;> simp [GState.ctr]
-  have hold_a : Old { g with cFor := g.cFor + 1, flags := some (target i) } (pre ++ ci) :=
+  have hold_a : Old { g with cFor := g.cFor + 1, flags := flagsAfter g.flags i } (pre ++ ci) :=
     old_nolabels (hold.mono hm0) hlci
   have hold_b : Old { g2 with flags := none } (pre ++ ci ++ c1 ++ [GLine.lab fl]) := by
     rw [old_flags]
@@ -541,7 +542,7 @@ theorem case_for (L : Layout) (f : Nat) (ihs : ∀ j, j ≤ f → Correct L j) (
     simp at hl
     subst hl
     rw [← hfl]; simp [LKind.ctr, GState.ctr, Lbl.idx]; omega
-  have hold_c : Old { g3 with flags := some (target u) } (pre ++ ci ++ c1 ++ [GLine.lab fl] ++ cb ++ [GLine.lab fu] ++ cu) := by
+  have hold_c : Old { g3 with flags := flagsAfter none u } (pre ++ ci ++ c1 ++ [GLine.lab fl] ++ cb ++ [GLine.lab fu] ++ cu) := by
     rw [old_flags]
     refine old_nolabels ((((old_flags g2 none _).mp hold_b |>.mono hfb.1).append (Old.of_fresh hfb)).append ?_) hlcu
     intro l hl
@@ -595,7 +596,7 @@ theorem case_for (L : Layout) (f : Nat) (ihs : ∀ j, j ≤ f → Correct L j) (
     rw [← w7] at this
     exact this.cast (by len_arith) (by len_arith)
   -- the loop, from the loop label, by induction on the fuel of the source loop
-  have hloop : ∀ k, k ≤ f → ∀ (m1 : Mem) (s1 : Cpu), s1.mem = m1 → evalCond L m1 c = true →
+  have hloop : ∀ k, k ≤ f → ∀ (m1 : SrcSt) (s1 : Cpu), srcOf s1 = m1 → evalCond L m1 c = true →
       sem L k m1 (.while c (.seq b (.flat u))) = some m' →
       Result L whole (pre.length + ci.length + c1.length) s1
         (pre.length + ci.length + c1.length + 1 + cb.length + 1 + cu.length + c2.length + 1) m' none := by
@@ -633,7 +634,7 @@ theorem case_for (L : Layout) (f : Nat) (ihs : ∀ j, j ≤ f → Correct L j) (
               rw [hcb] at rb
               dsimp only at rb
               rw [← w3] at rb
-              obtain ⟨s2, hs2, hm2, hf2', hx2, hy2, hsp2⟩ := rb
+              obtain ⟨s2, hs2, hm2, hf2', hsp2⟩ := rb
               have hs2' : Steps L whole (pre.length + ci.length + c1.length + 1) s1 (pre.length + ci.length + c1.length + 1 + cb.length) s2 :=
                 hs2.cast (by len_arith) (by len_arith)
               -- update label
@@ -643,20 +644,19 @@ theorem case_for (L : Layout) (f : Nat) (ihs : ∀ j, j ≤ f → Correct L j) (
                 rw [← w4] at this
                 exact this.cast (by len_arith) (by len_arith)
               -- update statement
-              obtain ⟨s3, hs3, hm3, hx3, hy3, hsp3, hz3⟩ := flat_steps L u
-                (pre ++ ci ++ c1 ++ [GLine.lab fl] ++ cb ++ [GLine.lab fu]) (c2 ++ [GLine.lab fe] ++ post) s2
+              obtain ⟨s3, hs3, hm3, hsp3, hz3⟩ := flat_steps L u none (pre ++ ci ++ c1 ++ [GLine.lab fl] ++ cb ++ [GLine.lab fu]) (c2 ++ [GLine.lab fe] ++ post) s2 trivial
               rw [hcu, ← w5] at hs3
               have hs3' : Steps L whole (pre.length + ci.length + c1.length + 1 + cb.length + 1) s2
                   (pre.length + ci.length + c1.length + 1 + cb.length + 1 + cu.length) s3 :=
                 hs3.cast (by len_arith) (by len_arith)
-              have hmem3 : s3.mem = m2 := by rw [hm3, hm2, hbody]
+              have hmem3 : srcOf s3 = m2 := by rw [hm3, hm2, hbody]
               -- second condition
-              have hc := genCond_correct L c { g3 with flags := some (target u) } false fl hokc
+              have hc := genCond_correct L c { g3 with flags := flagsAfter none u } false fl hokc
               rw [hfl] at hc2
               rw [hc2] at hc
               have hc' := hc (pre ++ ci ++ c1 ++ [GLine.lab fl] ++ cb ++ [GLine.lab fu] ++ cu) ([GLine.lab fe] ++ post) s3
                 (pre.length + ci.length + c1.length) hold_c hz3 (by rw [← w6]; exact hfind_fl)
-              obtain ⟨s4, hs4, hm4, hx4, hy4, hsp4, hf4⟩ := hc'
+              obtain ⟨s4, hs4, hm4, hsp4, hf4⟩ := hc'
               dsimp only at hs4
               rw [← w6, hmem3] at hs4
               by_cases hev2 : evalCond L m2 c = true
@@ -664,9 +664,8 @@ theorem case_for (L : Layout) (f : Nat) (ihs : ∀ j, j ≤ f → Correct L j) (
                 simp only [hb, if_true] at hs4
                 have hs4' : Steps L whole (pre.length + ci.length + c1.length + 1 + cb.length + 1 + cu.length) s3
                     (pre.length + ci.length + c1.length) s4 := hs4.cast (by len_arith) rfl
-                obtain ⟨s5, hs5, hm5, _, hx5, hy5, hsp5⟩ := ihk (by omega) m2 s4 (by rw [hm4, hmem3]) hev2 hs
-                exact ⟨s5, ((((h0.trans hs2').trans h3).trans hs3').trans hs4').trans hs5, hm5, trivial,
-                  by rw [hx5, hx4, hx3, hx2], by rw [hy5, hy4, hy3, hy2], by rw [hsp5, hsp4, hsp3, hsp2]⟩
+                obtain ⟨s5, hs5, hm5, _, hsp5⟩ := ihk (by omega) m2 s4 (by rw [hm4, hmem3]) hev2 hs
+                exact ⟨s5, ((((h0.trans hs2').trans h3).trans hs3').trans hs4').trans hs5, hm5, trivial, by rw [hsp5, hsp4, hsp3, hsp2]⟩
               · have hev2' : evalCond L m2 c = false := by simpa using hev2
                 have hb : (evalCond L m2 c != false) = false := by simp [hev2']
                 simp only [hb, Bool.false_eq_true, if_false] at hs4
@@ -674,40 +673,39 @@ theorem case_for (L : Layout) (f : Nat) (ihs : ∀ j, j ≤ f → Correct L j) (
                     (pre.length + ci.length + c1.length + 1 + cb.length + 1 + cu.length + c2.length) s4 :=
                   hs4.cast (by len_arith) (by len_arith)
                 simp only [sem, hev2', Bool.false_eq_true, if_false, Option.some.injEq] at hs
-                exact ⟨s4, ((((h0.trans hs2').trans h3).trans hs3').trans hs4').trans (hlast s4), by rw [hm4, hmem3, hs], trivial,
-                  by rw [hx4, hx3, hx2], by rw [hy4, hy3, hy2], by rw [hsp4, hsp3, hsp2]⟩
+                exact ⟨s4, ((((h0.trans hs2').trans h3).trans hs3').trans hs4').trans (hlast s4), by rw [hm4, hmem3, hs], trivial, by rw [hsp4, hsp3, hsp2]⟩
   -- the initialisation
-  obtain ⟨sa, hsa, hma, hxa, hya, hspa, hza⟩ := flat_steps L i pre
-    (c1 ++ [GLine.lab fl] ++ cb ++ [GLine.lab fu] ++ cu ++ c2 ++ [GLine.lab fe] ++ post) s
+  obtain ⟨sa, hsa, hma, hspa, hza⟩ := flat_steps L i g.flags pre
+    (c1 ++ [GLine.lab fl] ++ cb ++ [GLine.lab fu] ++ cu ++ c2 ++ [GLine.lab fe] ++ post) s hinv
   rw [hci, ← w0] at hsa
   -- the first condition
-  have hc := genCond_correct L c { g with cFor := g.cFor + 1, flags := some (target i) } true fe hokc
+  have hc := genCond_correct L c { g with cFor := g.cFor + 1, flags := flagsAfter g.flags i } true fe hokc
   rw [hfe] at hc1
   rw [hc1] at hc
   have hc' := hc (pre ++ ci) ([GLine.lab fl] ++ cb ++ [GLine.lab fu] ++ cu ++ c2 ++ [GLine.lab fe] ++ post) sa
     (pre.length + ci.length + c1.length + 1 + cb.length + 1 + cu.length + c2.length) hold_a hza (by rw [← w1]; exact hfind_fe)
-  obtain ⟨sb, hsb, hmb, hxb, hyb, hspb, hfb'⟩ := hc'
+  obtain ⟨sb, hsb, hmb, hspb, hfb'⟩ := hc'
   dsimp only at hsb
   rw [← w1] at hsb
-  have hmema : sa.mem = spec L m i := by rw [hma, hm]
+  have hmema : srcOf sa = rspec L m i := by rw [hma, hm]
   rw [hmema] at hsb
   cases f with
   | zero => simp [sem] at h
   | succ f1 =>
-    by_cases hev : evalCond L (spec L m i) c = true
-    · have hb : (evalCond L (spec L m i) c != true) = false := by simp [hev]
+    by_cases hev : evalCond L (rspec L m i) c = true
+    · have hb : (evalCond L (rspec L m i) c != true) = false := by simp [hev]
       simp only [hb, Bool.false_eq_true, if_false] at hsb
       have hsb' : Steps L whole (pre.length + ci.length) sa (pre.length + ci.length + c1.length) sb :=
         hsb.cast (by len_arith) (by len_arith)
-      obtain ⟨sc, hsc, hmc, _, hxc, hyc, hspc⟩ := hloop (f1 + 1) (Nat.le_refl _) (spec L m i) sb (by rw [hmb, hmema]) hev h
-      exact ⟨sc, (hsa.trans hsb').trans hsc, hmc, trivial, by rw [hxc, hxb, hxa], by rw [hyc, hyb, hya], by rw [hspc, hspb, hspa]⟩
-    · have hev' : evalCond L (spec L m i) c = false := by simpa using hev
-      have hb : (evalCond L (spec L m i) c != true) = true := by simp [hev']
+      obtain ⟨sc, hsc, hmc, _, hspc⟩ := hloop (f1 + 1) (Nat.le_refl _) (rspec L m i) sb (by rw [hmb, hmema]) hev h
+      exact ⟨sc, (hsa.trans hsb').trans hsc, hmc, trivial, by rw [hspc, hspb, hspa]⟩
+    · have hev' : evalCond L (rspec L m i) c = false := by simpa using hev
+      have hb : (evalCond L (rspec L m i) c != true) = true := by simp [hev']
       simp only [hb, if_true] at hsb
       have hsb' : Steps L whole (pre.length + ci.length) sa
           (pre.length + ci.length + c1.length + 1 + cb.length + 1 + cu.length + c2.length) sb := hsb.cast (by len_arith) rfl
       simp only [sem, hev', Bool.false_eq_true, if_false, Option.some.injEq] at h
-      exact ⟨sb, (hsa.trans hsb').trans (hlast sb), by rw [hmb, hmema, h], trivial, by rw [hxb, hxa], by rw [hyb, hya], by rw [hspb, hspa]⟩
+      exact ⟨sb, (hsa.trans hsb').trans (hlast sb), by rw [hmb, hmema, h], trivial, by rw [hspb, hspa]⟩
 
 
 /-- every statement of the fragment, whatever fuel its source meaning needs -/
@@ -721,10 +719,10 @@ theorem correct_all (L : Layout) : ∀ fuel, Correct L fuel := by
     | succ f =>
       have ihf : Correct L f := ih f (by omega)
       cases st with
-      | flat fs => exact case_flat L f fs m m' h g pre post s hm
+      | flat fs => exact case_flat L f fs m m' h g pre post s hm hinv
       | skip =>
         simp only [sem, Option.some.injEq] at h
-        refine ⟨s, ?_, by rw [hm, h], by simpa [gen] using hinv, rfl, rfl, rfl⟩
+        refine ⟨s, ?_, by rw [hm, h], by simpa [gen] using hinv, rfl⟩
         simpa [gen] using Steps.refl (L := L) (code := pre ++ post) pre.length s
       | seq a b => exact case_seq L f ihf a b m m' h hfr g pre post s hold hm hinv
       | ifThen c t => exact case_ifThen L f ihf c t m m' h hfr g pre post s hold hm hinv
